@@ -20,13 +20,13 @@ ObsOK(o) ==
   \* waiting for the SETCONF answer and waiting for the circuit look the same from outside: not yet connecting
   /\ \A i \in 1..Len(ConnOrder) : o.via[i] = (IF via'[ConnOrder[i]].st \in {"waitconf", "waitbuilt"} THEN "wait" ELSE via'[ConnOrder[i]].st)
   /\ ~o.exc
-PropsOK == ConsultedInOrder' /\ OneDecision' /\ NothingForExit' /\ ViaExact' /\ Answered' /\ ViaNeverRefused'
+PropsOK == ToldMatches' /\ ConsultedInOrder' /\ OneDecision' /\ NothingForExit' /\ ViaExact' /\ Answered' /\ ViaNeverRefused'
 Step(e) ==
   CASE e.a = "NewStream"   -> NewStream(e.s, e.kind, e.p, e.ans, e.mode)
     [] e.a = "Answer"      -> Answer(e.s)
     [] e.a = "StreamFailed" -> StreamFailed(e.s)
     [] e.a = "LateClosed"  -> LateClosed(e.s)
-    [] e.a = "SetAttacher" -> SetAttacher(e.who)
+    [] e.a = "SetAttacher" -> SetAttacher(e.who, IF "late" \in DOMAIN e THEN e.late ELSE FALSE)
     [] e.a = "ViaConnect"  -> ViaConnect(e.k, e.c, e.late)
     [] e.a = "ConfAck"     -> ConfAck
     [] e.a = "ViaAddr"     -> ViaAddr(e.k, e.p)
